@@ -21,3 +21,72 @@ package wlru
 //@   modifies c.lru.items[*], c.lru.weight, lel[c.lru.evictList], llen[c.lru.evictList], lidx[*], lown[*], nEvict, gEvictKey, gEvictVal, all(simplewlru.entry).value, all(simplewlru.entry).weight
 //@   ensures  lruinv(c.lru) && result1 == old(lhas(c.lru, key))
 //@   ensures  [kept] result1 ==> result0 == old(lval(c.lru, key)) && result2 == 0
+//@
+//@ // the plain wrappers: one critical section around the operation of the wrapped cache. Their contracts are the wrapped
+//@ // cache's contracts (utils/simplewlru) with c.lru for c, so callers lose nothing by being checked against the wrapper
+//@ // instead of the wrapped operation; obligations: lock.guard for every access to c.lru, lock.balanced at the return.
+//@ func (*Cache).Purge
+//@   requires c != nil && lruinv(c.lru)
+//@   modifies c.lru.items[*], c.lru.weight, llen[c.lru.evictList], nEvict, gEvictKey, gEvictVal
+//@   ensures  lruinv(c.lru) && len(c.lru.items) == 0 && c.lru.weight == 0
+//@   ensures  [evict] c.lru.onEvict != nil ==> nEvict == old(nEvict) + old(len(c.lru.items))
+//@   ensures  [noevict] c.lru.onEvict == nil ==> nEvict == old(nEvict)
+//@ func (*Cache).Add
+//@   requires c != nil && lruinv(c.lru) && cwsum(c.lru) + weight <= 18446744073709551615
+//@   modifies c.lru.items[*], c.lru.weight, lel[c.lru.evictList], llen[c.lru.evictList], lidx[*], lown[*], nEvict, gEvictKey, gEvictVal, all(simplewlru.entry).value, all(simplewlru.entry).weight
+//@   ensures  lruinv(c.lru) && within(c.lru)
+//@   ensures  [heavy] weight > old(c.lru.maxWeight) ==> !lhas(c.lru, key)
+//@   ensures  [key] lhas(c.lru, key) ==> lval(c.lru, key) == value && lwt(c.lru, key) == weight && lel[c.lru.evictList][0] == c.lru.items[key]
+//@   ensures  [others] forall(k interface{}, k != key && lhas(c.lru, k) ==> old(lhas(c.lru, k)) && c.lru.items[k] == old(c.lru.items[k]) && lval(c.lru, k) == old(lval(c.lru, k)) && lwt(c.lru, k) == old(lwt(c.lru, k)))
+//@ func (*Cache).Get
+//@   requires c != nil && lruinv(c.lru)
+//@   modifies lel[c.lru.evictList], lidx[*]
+//@   ensures  lruinv(c.lru) && result1 == lhas(c.lru, key) && (result1 ==> result0 == lval(c.lru, key) && lel[c.lru.evictList][0] == c.lru.items[key]) && (!result1 ==> result0 == nil)
+//@   ensures  [keep] !result1 ==> forall(i, 0, llen[c.lru.evictList], lel[c.lru.evictList][i] == old(lel[c.lru.evictList][i]))
+//@   ensures  [order] result1 ==> forall(i, 0, old(lidx[c.lru.items[key]]), lel[c.lru.evictList][i + 1] == old(lel[c.lru.evictList][i])) && forall(i, old(lidx[c.lru.items[key]]) + 1, llen[c.lru.evictList], lel[c.lru.evictList][i] == old(lel[c.lru.evictList][i]))
+//@ func (*Cache).Contains
+//@   requires c != nil && lruinv(c.lru)
+//@   ensures  result == lhas(c.lru, key)
+//@ func (*Cache).Peek
+//@   requires c != nil && lruinv(c.lru)
+//@   ensures  result1 == lhas(c.lru, key) && (result1 ==> result0 == lval(c.lru, key)) && (!result1 ==> result0 == nil)
+//@ func (*Cache).Remove
+//@   requires c != nil && lruinv(c.lru)
+//@   modifies c.lru.items[key], c.lru.weight, lel[c.lru.evictList], llen[c.lru.evictList], lidx[*], lown[*], nEvict, gEvictKey, gEvictVal
+//@   ensures  lruinv(c.lru) && result == old(lhas(c.lru, key)) && !lhas(c.lru, key) && len(c.lru.items) == old(len(c.lru.items)) - ite(result, 1, 0)
+//@   ensures  [others] forall(k interface{}, k != key ==> lhas(c.lru, k) == old(lhas(c.lru, k)) && c.lru.items[k] == old(c.lru.items[k]))
+//@   ensures  [weight] c.lru.weight == ite(result, old(c.lru.weight) - old(lwt(c.lru, key)), old(c.lru.weight))
+//@   ensures  [evict] nEvict == old(nEvict) + ite(result && c.lru.onEvict != nil, 1, 0) && (result && c.lru.onEvict != nil ==> gEvictKey == key && gEvictVal == old(lval(c.lru, key)))
+//@ func (*Cache).Resize
+//@   requires c != nil && lruinv(c.lru)
+//@   modifies c.lru.maxWeight, c.lru.maxSize, c.lru.items[*], c.lru.weight, lel[c.lru.evictList], llen[c.lru.evictList], lidx[*], lown[*], nEvict, gEvictKey, gEvictVal
+//@   ensures  lruinv(c.lru) && within(c.lru) && c.lru.maxWeight == maxWeight && c.lru.maxSize == maxSize
+//@   ensures  [subset] forall(k interface{}, lhas(c.lru, k) ==> old(lhas(c.lru, k)) && c.lru.items[k] == old(c.lru.items[k]))
+//@   ensures  [lru] llen[c.lru.evictList] <= old(llen[c.lru.evictList]) && forall(i, 0, llen[c.lru.evictList], lel[c.lru.evictList][i] == old(lel[c.lru.evictList][i]))
+//@ func (*Cache).RemoveOldest
+//@   requires c != nil && lruinv(c.lru)
+//@   modifies c.lru.items[*], c.lru.weight, lel[c.lru.evictList], llen[c.lru.evictList], lidx[*], lown[*], nEvict, gEvictKey, gEvictVal
+//@   ensures  lruinv(c.lru) && result2 == old(len(c.lru.items) > 0)
+//@   ensures  result2 ==> result0 == old(ent(lel[c.lru.evictList][llen[c.lru.evictList] - 1]).key) && old(lhas(c.lru, result0)) && result1 == old(lval(c.lru, result0)) && !lhas(c.lru, result0) && len(c.lru.items) == old(len(c.lru.items)) - 1
+//@   ensures  !result2 ==> result0 == nil && result1 == nil && len(c.lru.items) == 0
+//@   ensures  [others] forall(k interface{}, k != result0 ==> lhas(c.lru, k) == old(lhas(c.lru, k)) && c.lru.items[k] == old(c.lru.items[k]))
+//@   ensures  [order] forall(i, 0, llen[c.lru.evictList], lel[c.lru.evictList][i] == old(lel[c.lru.evictList][i]))
+//@   ensures  [weight] result2 ==> c.lru.weight == old(c.lru.weight) - old(lwt(c.lru, result0))
+//@   ensures  [evict] nEvict == old(nEvict) + ite(result2 && c.lru.onEvict != nil, 1, 0)
+//@ func (*Cache).GetOldest
+//@   requires c != nil && lruinv(c.lru)
+//@   ensures  result2 == (len(c.lru.items) > 0)
+//@   ensures  result2 ==> result0 == ent(lel[c.lru.evictList][llen[c.lru.evictList] - 1]).key && lhas(c.lru, result0) && result1 == lval(c.lru, result0)
+//@   ensures  !result2 ==> result0 == nil && result1 == nil
+//@ func (*Cache).Keys
+//@   requires c != nil && lruinv(c.lru)
+//@   ensures  fresh(result) && len(result) == len(c.lru.items) && forall(j, 0, len(result), result[j] == ent(lel[c.lru.evictList][llen[c.lru.evictList] - 1 - j]).key && lhas(c.lru, result[j]))
+//@ func (*Cache).Len
+//@   requires c != nil && lruinv(c.lru)
+//@   ensures  result == len(c.lru.items)
+//@ func (*Cache).Weight
+//@   requires c != nil && c.lru != nil
+//@   ensures  result == c.lru.weight
+//@ func (*Cache).Total
+//@   requires c != nil && lruinv(c.lru)
+//@   ensures  result0 == c.lru.weight && result1 == len(c.lru.items)
